@@ -40,6 +40,7 @@ type Prog struct {
 
 	overlay map[string][]byte
 	goarch  string
+	callers map[*ssa.Function][]ssa.CallInstruction
 }
 
 // envError marks failures of the environment (exit 2), as opposed to verdicts.
@@ -108,6 +109,8 @@ func Load(o LoadOpts) *Prog {
 }
 
 func (p *Prog) buildSSA(pkgs []*packages.Package) {
+	// InstantiateGenerics: the concrete function-data types only come into existence through generic code;
+	// without full instantiation their methods are not part of the program
 	prog, spkgs := ssautil.AllPackages(pkgs, ssa.InstantiateGenerics)
 	prog.Build()
 	p.SSA = prog
@@ -121,6 +124,29 @@ func (p *Prog) buildSSA(pkgs []*packages.Package) {
 		p.SSAPkgs[sp.Pkg.Path()] = sp
 	}
 	p.AllFns = ssautil.AllFunctions(prog)
+	// instantiation wrappers of generic functions are created on demand and are
+	// not part of AllFunctions: close the set under referenced functions so the
+	// call graph has edges through them
+	work := make([]*ssa.Function, 0, len(p.AllFns))
+	for f := range p.AllFns {
+		work = append(work, f)
+	}
+	for len(work) > 0 {
+		f := work[len(work)-1]
+		work = work[:len(work)-1]
+		var ops []*ssa.Value
+		for _, b := range f.Blocks {
+			for _, ins := range b.Instrs {
+				ops = ins.Operands(ops[:0])
+				for _, op := range ops {
+					if g, ok := (*op).(*ssa.Function); ok && !p.AllFns[g] {
+						p.AllFns[g] = true
+						work = append(work, g)
+					}
+				}
+			}
+		}
+	}
 	p.NumFunctions = len(p.AllFns)
 	for f := range p.AllFns {
 		if p.IsRepoFn(f) {
@@ -302,6 +328,17 @@ func (p *Prog) Callees(site ssa.CallInstruction) []*ssa.Function {
 			}
 		}
 	}
+	if len(r) == 0 && site.Common().IsInvoke() {
+		// VTA loses values that pass through type-parameter typed conversions
+		// (the function-data factory): fall back to class hierarchy analysis
+		if n := p.CHA().Nodes[fn]; n != nil {
+			for _, e := range n.Out {
+				if e.Site == site {
+					r = append(r, e.Callee.Func)
+				}
+			}
+		}
+	}
 	sort.Slice(r, func(i, j int) bool { return r[i].String() < r[j].String() })
 	return r
 }
@@ -361,6 +398,9 @@ func (p *Prog) RepoFns(shorts ...string) []*ssa.Function {
 		}
 		if isUninstantiated(f) {
 			continue // generic bodies are analysed through their instantiations
+		}
+		if f.Synthetic != "" && !strings.HasPrefix(f.Synthetic, "instance of") {
+			continue // wrappers, thunks, package initialisers: no source of their own
 		}
 		pp := fnPkgPath(f)
 		if !strings.HasPrefix(pp, repoMod) {
@@ -443,4 +483,44 @@ func isUninstantiated(f *ssa.Function) bool {
 		}
 	}
 	return false
+}
+
+// Callers returns the call sites in repository functions that may call fn
+// (resolved like Callees: static, VTA, CHA fallback).
+func (p *Prog) Callers(fn *ssa.Function) []ssa.CallInstruction {
+	if p.callers == nil {
+		p.callers = map[*ssa.Function][]ssa.CallInstruction{}
+		var fns []*ssa.Function
+		for f := range p.AllFns {
+			if f.Blocks != nil && p.IsRepoFn(f) {
+				fns = append(fns, f)
+			}
+		}
+		sort.Slice(fns, func(i, j int) bool {
+			if fns[i].String() != fns[j].String() {
+				return fns[i].String() < fns[j].String()
+			}
+			return fns[i].Pos() < fns[j].Pos()
+		})
+		for _, f := range fns {
+			for _, b := range f.Blocks {
+				for _, ins := range b.Instrs {
+					if site, ok := ins.(ssa.CallInstruction); ok {
+						for _, c := range p.Callees(site) {
+							p.callers[c] = append(p.callers[c], site)
+						}
+					}
+				}
+			}
+		}
+	}
+	return p.callers[fn]
+}
+
+// originName is the declared name of a function (without type arguments).
+func originName(f *ssa.Function) string {
+	if o := f.Origin(); o != nil {
+		return o.Name()
+	}
+	return f.Name()
 }
